@@ -51,4 +51,7 @@ def run(ded, repo, tier):
                            'refuted' if missing else 'proved', backend='ast', detail='not blocked: %r' % missing if missing else '',
                            model=dict(missing=missing)))
     ded.assume('keys and values are opaque hashable values with total, side-effect-free ==/hash')
-    ded.trust('not under contract (bounded only): OneToOne.__init__/copy/fromkeys/unique (update and |= are under contract: they preserve the invariant for any argument), ManyToMany.__setitem__/__delitem__/replace/update (add and remove are under contract), FrozenDict.__hash__/updated/copy/pickle')
+    ded.trust('not under contract (bounded only): OneToOne.__init__/copy/fromkeys/unique (update and |= are under contract: they preserve the invariant for any argument), ManyToMany.__init__/get/__getitem__/iteritems/__eq__ and update() from another ManyToMany (add, remove, __setitem__, __delitem__, replace and update from pairs or a mapping are under contract), FrozenDict.__hash__/updated/copy/pickle')
+    ded.assume('ManyToMany.update: the argument is not itself a ManyToMany (type(x) of an opaque value is not the class under verification); '
+               'ManyToMany.__setitem__: set(vals) is a fresh set whose members are a function of vals; set difference, in-place difference, '
+               'set.update and iteration over a set are encoded pointwise with lengths constrained only by len >= 0 and len == 0 iff empty')
